@@ -164,7 +164,12 @@ def make_worker(tier):
     from fcp.error import Logger
 
     def parse_tree(files):
-        td = tempfile.mkdtemp(prefix="fcpmc-c20-")
+        from .c08 import _worker_dir
+
+        td = _worker_dir()  # same paths for consecutive cases of this worker (see c08)
+        for fn in os.listdir(td):
+            p = os.path.join(td, fn)
+            shutil.rmtree(p) if os.path.isdir(p) else os.remove(p)
         try:
             texts = write_tree(td, files)
             logger = Logger({})
@@ -180,7 +185,7 @@ def make_worker(tier):
                 return texts, None, "\n".join(str(m) for m, _n, _w in r.err().msg), rendered
             return texts, r.unwrap().to_dict(), None, None
         finally:
-            shutil.rmtree(td, ignore_errors=True)
+            pass
 
     def work(chunk):
         S = Stats()
@@ -249,8 +254,11 @@ def run(tier):
                 for kind in ERRORS:
                     cases.append((bname, label, files, (modname, kind)))
     r.bounds = {"splits": nsplit, "error_cases": len(cases) - nsplit, "bases": list(BASES), "topologies": ["star", "chain"], "paths": list(PATHS) if tier != "quick" else ["flat", "deep"]}
-    for s in pmap(make_worker(tier), chunks(list(enumerate(cases)), 30)):
-        r.stats.merge(s)
+    from .c08 import WorkDirs
+
+    with WorkDirs():
+        for s in pmap(make_worker(tier), chunks(list(enumerate(cases)), 30)):
+            r.stats.merge(s)
     r.rule = (
         "states = (base schema, assignment of its declarations to {main, m1, m2} closed under declare-before-use, topology star|chain, module path depth, position of each mod "
         "statement up to the point of first need) on a real scratch file tree, compared per category (multiset of to_dict items) with the single-file parse; plus, for every module of "
